@@ -195,6 +195,14 @@ def judge_table(ops, rep, ctx, want=('c06', 'c14')):
             tabs[t[1]] = RefTable()
             if 'c06' in want:
                 _check_dump(i, TableDump(r), tabs[t[1]], F, 'HeaderTable()')
+        elif k == 'tcopy' and t[2] in tabs:
+            import copy as _copy
+            tabs[t[1]] = _copy.deepcopy(tabs[t[2]])
+            head, st = split_reply(r)
+            if head != 'ok':
+                F.append(Failure(i, 'table-op-raised', 'copying a HeaderTable raised %s' % head))
+            elif 'c06' in want or 'c14' in want:
+                _check_dump(i, TableDump(st), tabs[t[1]], F, 'copy of a HeaderTable')
         elif k in ('tadd', 'tmax', 'tdump') and t[1] in tabs:
             rt = tabs[t[1]]
             if k == 'tadd':
@@ -287,15 +295,45 @@ def judge_endpoints(ops, rep, ctx, clauses):
                 _check_dump(i, td, None, F, 'encoder after ' + op[:40])
                 if td.max != int(t[2]):
                     fail(i, 'max-differs', 'encoder: maximum %d after assigning %s' % (td.max, t[2]))
-        elif k in ('eenc', 'eapi') and t[1] in encs:
+        elif k == 'ecopy' and t[2] in encs:
+            import copy as _copy
+            encs[t[1]] = _copy.deepcopy(encs[t[2]])
+            lastout[t[1]] = lastout.get(t[2], b''); lasthdrs[t[1]] = lasthdrs.get(t[2], [])
+            if head != 'ok' and {'c01', 'c03', 'c09', 'c10', 'c15', 'c19', 'c20'} & clauses:
+                fail(i, 'copy-raised', 'copying a live Encoder (%s) raised %s' % (t[3], head))
+            td = TableDump(st)
+            if 'c06' in clauses and td.ok:
+                _check_dump(i, td, None, F, 'copy of an encoder')
+        elif k == 'dcopy' and t[2] in decs:
+            import copy as _copy
+            decs[t[1]] = _copy.deepcopy(decs[t[2]])
+            if head != 'ok' and {'c01', 'c02', 'c04', 'c10', 'c20'} & clauses:
+                fail(i, 'copy-raised', 'copying a live Decoder (%s) raised %s' % (t[3], head))
+            if 'c06' in clauses and decs[t[1]].sync:
+                _check_dump(i, TableDump(st), decs[t[1]].table, F, 'copy of a decoder')
+        elif k in ('eenc', 'eapi', 'eev', 'eadd') and t[1] in encs:
             es = encs[t[1]]
             if es.broken:
                 if 'c06' in clauses:
                     _check_dump(i, TableDump(st), None, F, 'encoder (after an earlier failed encode)')
                 continue
             huff = t[2] == '1'
+            inblock = []          # sizes the header generator assigns while the block is being encoded (eev)
+            nfirst = None          # number of fields yielded before the first such assignment
             if k == 'eenc':
                 hs = [] if t[3:] == ['-'] else [(unhex(a), unhex(b), c == '1') for a, b, c in (x.split(':') for x in t[3:])]
+            elif k == 'eadd':      # Encoder.add((name, value), sensitive, huffman) called directly: one field, no prologue
+                hs = [(unhex(t[4]), unhex(t[5]), t[3] == '1')]
+            elif k == 'eev':
+                ftoks = []
+                for x in t[3:]:
+                    if x.startswith('!size='):
+                        inblock.append(int(x[6:]))
+                        if nfirst is None:
+                            nfirst = len(ftoks)
+                    else:
+                        ftoks.append(x)
+                hs = _norm_api('gen', ftoks)
             else:
                 hs = _norm_api(t[3], t[4:])
             if not head.startswith('ok'):
@@ -335,7 +373,7 @@ def judge_endpoints(ops, rep, ctx, clauses):
                         if x.get('hname') or x.get('hvalue'):
                             pass      # padding validity is implied by the reference decoder accepting the string
             # ---- C09
-            if 'c09' in clauses:
+            if 'c09' in clauses and not inblock and k != 'eadd':
                 vals = [x['size'] for x in upd]
                 td = TableDump(st)
                 encmax = td.max if td.ok else (es.assigned[-1] if es.assigned else es.size_in_force)
@@ -367,7 +405,9 @@ def judge_endpoints(ops, rep, ctx, clauses):
             tcur = before.copy()
             for u in upd:
                 tcur.set_max(u['size'])
-            for (n, v, s), x in zip(hs, trace[nupd:]):
+            for fidx, ((n, v, s), x) in enumerate(zip(hs, trace[nupd:])):
+                if nfirst is not None and fidx >= nfirst:
+                    break          # the encoder's table was resized under the generator's feet: the peer's view lags by design
                 addr = tcur.addressable()
                 exact = (n, v) in addr
                 if 'c19' in clauses and exact and x['kind'] != 'I':
@@ -386,7 +426,7 @@ def judge_endpoints(ops, rep, ctx, clauses):
             if td.ok:
                 if 'c06' in clauses:
                     _check_dump(i, td, None, F, 'encoder after encode')
-                if {'c10', 'c03', 'c15', 'c19'} & clauses:
+                if {'c10', 'c03', 'c15', 'c19'} & clauses and not inblock:
                     if td.entries != list(es.peer.table.entries) or td.max != es.peer.table.maxsize:
                         sens = [(n, v) for n, v, s in hs if s]
                         leak = [e for e in td.entries if e in sens and e not in list(es.peer.table.entries)]
@@ -395,7 +435,7 @@ def judge_endpoints(ops, rep, ctx, clauses):
                             td.max, _short(td.entries), es.peer.table.maxsize, _short(list(es.peer.table.entries))))
                         es.broken = True
             es.size_in_force = es.peer.table.maxsize
-            es.assigned = []
+            es.assigned = list(inblock)       # what the generator assigned during this block is owed to the NEXT block
         # -------------------------------------------------------------------------------- decoder side
         elif k == 'dnew':
             rd = RefDecoder(list_limit=int(t[2]) if len(t) > 2 else 65536)
